@@ -1,6 +1,10 @@
+mod c06;
+mod driver;
+mod gen;
 mod prng;
 mod sched;
 mod seams;
+mod supervise;
 mod workload;
 
 use workload::*;
@@ -37,6 +41,167 @@ fn corpus_filter() {
     std::fs::write(dir.join("rejected.json"), serde_json::to_string_pretty(&rejected).unwrap()).unwrap();
 }
 
+fn gen_stats(n: u64, show: bool) {
+    install_panic_hook();
+    let mut ok = 0;
+    let mut rej = 0;
+    let mut pan = 0;
+    let mut errs: std::collections::BTreeMap<String, u64> = Default::default();
+    let mut sizes = vec![];
+    let t0 = std::time::Instant::now();
+    for i in 0..n {
+        let mut p = prng::Prng::for_case(1, "gen", i);
+        let src = gen::program(&mut p);
+        let a = analyse(&src, &mut p);
+        if show {
+            println!("// ---- {i} typechecks={} {}\n{src}", a.typechecks, a.note);
+            if let Err(e) = garble_lang::check(&src) { println!("// ERR {}", e.prettify(&src).chars().take(600).collect::<String>()); }
+        }
+        if a.typechecks {
+            let specs = a.consts.clone();
+            let s2 = src.clone();
+            let r = guarded(|| compile_src(&s2, "main", build_consts(&specs, &[], 0), Opts { register: false, dedup: true }, false));
+            let (o, _) = outcome_of(r);
+            match &o {
+                Outcome::Ok { size, .. } => { ok += 1; sizes.push(*size); }
+                Outcome::Err { class, .. } => { rej += 1; *errs.entry(format!("compile-err:{class}")).or_insert(0) += 1; }
+                Outcome::Panic { msg } => { pan += 1; *errs.entry(format!("panic:{}", panic_site(msg))).or_insert(0) += 1; if show { println!("// PANIC {msg}"); } }
+            }
+        } else {
+            rej += 1;
+            let r = garble_lang::check(&src);
+            if let Err(e) = r {
+                let m = format!("{e:?}");
+                let m: String = m.chars().take(110).collect();
+                *errs.entry(m).or_insert(0) += 1;
+            }
+        }
+    }
+    sizes.sort();
+    eprintln!("n={n} ok={ok} rejected={rej} panicked={pan} median_gates={:?} max={:?} {:?}", sizes.get(sizes.len()/2), sizes.last(), t0.elapsed());
+    for (k, v) in errs { eprintln!("{v:5} {k}"); }
+}
+
+fn seed_from_env() -> u64 {
+    std::env::var("VERIF_SEED").ok().and_then(|s| s.trim().parse().ok()).unwrap_or(1)
+}
+
+fn components() -> serde_json::Value {
+    serde_json::json!({
+        "real": ["garble_lang (scan, parse, check, compile, circuit builder, register allocator, convert, eval) built from /repo's working tree",
+                 "std::collections::HashMap/RandomState (SipHash keyed by the seam)", "std::fs::File, std::io::BufReader/Write formatting"],
+        "simulated": ["entropy source (getrandom)", "file system: open/read/write/close on /SIMDISK paths (in-memory disk, fault plans)",
+                      "process identity: one OS thread with its own hash keys = one simulated process (validated against fresh OS processes)"],
+        "stubs": ["fd numbers are placeholders on /dev/null", "no fsync/power-loss reordering below the page cache (the exporter never syncs)"]
+    })
+}
+
+fn c06_def(plan: &c06::Plan) -> driver::PropertyDef {
+    driver::PropertyDef {
+        id: "C06",
+        level: "exploration",
+        rule: "cases = corpus programs (tests/docs/examples of the repository) + generated well-typed programs biased to order-sensitive shapes + ill-typed programs; each case runs P simulated parties (distinct SipHash keys, key-counter drift, repeated compilations, permuted constant maps, 4 option combinations, up to 2 functions). evaluations = compilations executed. distinct_nontrivial = distinct (source, function, options) triples that compiled to a circuit under at least one party (hash of the triple), i.e. triples on which circuits were actually compared across seeds",
+        assumptions: vec![
+            "a thread with seam-provided RandomState keys behaves like a fresh process with those keys (checked against fresh OS processes in the fidelity batch)".into(),
+            "HashMap/HashSet with RandomState is the only nondeterminism source in the library (no threads, clocks, statics, pointers hashed; re-checked by grep guard)".into(),
+            "seeded search: P random key pairs per program bound the miss probability only for order-sensitive sites the workload reaches".into(),
+        ],
+        components: components(),
+        crash_is_violation: false,
+        n_cases: plan.n_cases(),
+        determinism_sample: 0,
+    }
+}
+
+fn run_case_dispatch(property: &str, tier: &str, seed: u64, idx: u64) -> supervise::CaseResult {
+    thread_local! {
+        static C06PLAN: std::cell::RefCell<Option<(String, std::rc::Rc<c06::Plan>)>> = const { std::cell::RefCell::new(None) };
+    }
+    match property {
+        "C06" => {
+            let plan = C06PLAN.with(|c| {
+                let mut c = c.borrow_mut();
+                if c.as_ref().map(|(t, _)| t != tier).unwrap_or(true) {
+                    *c = Some((tier.to_string(), std::rc::Rc::new(c06::Plan::load(tier).expect("corpus"))));
+                }
+                c.as_ref().unwrap().1.clone()
+            });
+            c06::run_case(&plan, seed, idx)
+        }
+        _ => panic!("unknown property {property}"),
+    }
+}
+
+fn check(property: &str, tier: &str) -> i32 {
+    install_panic_hook();
+    let seed = seed_from_env();
+    match property {
+        "C06" => {
+            let plan = match c06::Plan::load(tier) {
+                Ok(p) => p,
+                Err(e) => {
+                    println!("HARNESS-ERROR: {e}");
+                    return 2;
+                }
+            };
+            let mut def = c06_def(&plan);
+            def.determinism_sample = if tier == "thorough" { 512 } else { 64 };
+            driver::run_check(&def, tier, seed)
+        }
+        _ => {
+            println!("HARNESS-ERROR: unknown property {property}");
+            2
+        }
+    }
+}
+
+fn replay(path: &str) -> i32 {
+    install_panic_hook();
+    let t = match std::fs::read_to_string(path) {
+        Ok(t) => t,
+        Err(e) => {
+            println!("HARNESS-ERROR: {path}: {e}");
+            return 2;
+        }
+    };
+    let v: serde_json::Value = match serde_json::from_str(&t) {
+        Ok(v) => v,
+        Err(e) => {
+            println!("HARNESS-ERROR: {path}: {e}");
+            return 2;
+        }
+    };
+    if let Err(e) = seams::liveness_selftest() {
+        println!("HARNESS-ERROR: {e}");
+        return 2;
+    }
+    let prop = v["property"].as_str().unwrap_or("").to_string();
+    match prop.as_str() {
+        "C06" => match c06::replay(&v) {
+            Ok(fs) if fs.is_empty() => {
+                println!("replay: no violation reproduced");
+                0
+            }
+            Ok(fs) => {
+                for f in fs {
+                    println!("VIOLATION property=C06 replay={path}");
+                    println!("  class={} signature={}", f.class, f.signature);
+                    println!("  {}", f.what);
+                }
+                1
+            }
+            Err(e) => {
+                println!("HARNESS-ERROR: {e}");
+                2
+            }
+        },
+        _ => {
+            println!("HARNESS-ERROR: unknown property in replay file");
+            2
+        }
+    }
+}
+
 fn main() {
     let args: Vec<String> = std::env::args().collect();
     match args.get(1).map(|s| s.as_str()) {
@@ -48,6 +213,13 @@ fn main() {
             }
         },
         Some("corpus-filter") => corpus_filter(),
+        Some("check") => std::process::exit(check(&args[2], args.get(3).map(|s| s.as_str()).unwrap_or("quick"))),
+        Some("replay") => std::process::exit(replay(&args[2])),
+        Some("worker") => {
+            install_panic_hook();
+            supervise::worker_main(&args[2..], &run_case_dispatch);
+        }
+        Some("gen-stats") => gen_stats(args.get(2).and_then(|s| s.parse().ok()).unwrap_or(200), args.get(3).map(|s| s.as_str()) == Some("show")),
         _ => {
             eprintln!("usage");
             std::process::exit(2);
